@@ -710,7 +710,7 @@ void sampled_cell_eps(const Cell& c, Rng& r) {
   if (c.merge == 2) count(fam + "_smp_cells_mixed_k");
   count(fam + "_smp_cells_" + order_name(c.order));
   if (f1 < 1.0) count(fam + "_smp_cells_with_some_trial_beyond_eps");
-  sig(mix64(mix64(c.n, static_cast<uint64_t>(c.cfg)), mix64(static_cast<uint64_t>(c.order * 4 + c.merge), static_cast<uint64_t>(worst1 * 1e9))));
+  sig(mix64(mix64(c.n, static_cast<uint64_t>(c.cfg)), mix64(static_cast<uint64_t>(c.order * 4 + c.merge), dbits(std::floor(worst1 * 1e9)))));
   if (getenv("C08_VERBOSE")) fprintf(stderr, "%s\n", res.c_str());
   if (want_sample()) sample("{\"part\":\"sampled\",\"cell\":" + jstr(res) + "}");
 }
